@@ -48,6 +48,8 @@ THEOREMS = [
     "PV.C03E2E.C03_e2e_dat",
     # the per-setup rank condition (CovSetup.gam / DatSetup.gam) derived from the property's premises
     "PV.C03Excite.C03_setup_gam_of_premises",
+    "PV.C03Excite.C03_setup_gam_of_modal",
+    "PV.C03Excite.CovSetup.of_modal",
     "PV.C01Excite.C01_excited_of_modal",
     "PV.C01Excite.C01_observable_of_modal",
     "PV.C01Excite.C01_invertible_of_modal",
